@@ -764,6 +764,28 @@ func ruleR14_2(c *Check) {
 		}
 		r.Check(okv, sa, "stream writer splits tables only at a key change", s, "ReachedCapacity is not conjoined with !sameKey")
 	}
+	// every place that ends a stream-writer table while the stream goes on (send(false)) does so
+	// under "the key being added differs from the last one"; send(true) belongs to Done
+	snd := w.F("badger.sortedWriter.send")
+	for _, cs := range w.CG().In[snd] {
+		call, ok := cs.Node.(*ast.CallExpr)
+		if !ok || len(call.Args) != 1 {
+			continue
+		}
+		tv := w.Info.Types[call.Args[0]]
+		if tv.Value != nil && tv.Value.String() == "true" {
+			r.Check(cs.Caller.Root().Name == "badger.sortedWriter.Done", cs.Caller, k.key("final table handed over by Done", w, call), call, "send(true) outside sortedWriter.Done")
+			continue
+		}
+		okv := false
+		for _, g := range w.Guards(cs.Caller, call) {
+			c2 := w.Origin(cs.Caller, g.Cond)
+			if w.isCallTo(c2, same) && !g.Val {
+				okv = true
+			}
+		}
+		r.Check(okv, cs.Caller, k.key("a stream-writer table ends only when the next key differs", w, call), call, "send(false) is reached without !SameKey(key, lastKey): the versions of one key can be split over two tables of the level")
+	}
 }
 
 func ruleR14_3(c *Check) {
